@@ -33,7 +33,7 @@ Section Derive.
   Definition guarded (c : pcall) : option (list sc) :=
     let g := pc_guard c in
     if String.eqb g "" then call_script c
-    else if String.eqb g "<loop>" || String.eqb g "<else>" || String.eqb g "<closure>" then None
+    else if String.prefix "<" g then None      (* "<loop>", "<else>", "<closure>", alone or before a condition *)
     else if gamma g then call_script c else Some [].
 
   Fixpoint seq_scripts (l : list pcall) : option (list sc) :=
@@ -52,7 +52,12 @@ Fixpoint calls_of (name : string) (t : list (string * list pcall)) : list pcall 
   match t with [] => [] | (n, cs) :: r => if String.eqb n name then cs else calls_of name r end.
 
 (* the functions of internal/mobius that may change the file system: the seven persistent-state updates the crash
-   theorems are about, the helper they share, and the one file-tree rename of the handlers (the file tree is C11's) *)
+   theorems are about, the helper they share, the account loader (which finishes an interrupted move: FS/Crash.v
+   recover1) and the one file-tree rename of the handlers (the file tree is C11's) *)
 Definition persist_functions : list string :=
-  ["BanFile.Add"; "FlatNews.Write"; "HandleSetFileInfo"; "ThreadedNewsYAML.writeFile"; "YAMLAccountManager.Create";
-   "YAMLAccountManager.Delete"; "YAMLAccountManager.Update"; "writeFileAtomic"]%string.
+  ["BanFile.Add"; "FlatNews.Write"; "HandleSetFileInfo"; "NewYAMLAccountManager"; "ThreadedNewsYAML.writeFile";
+   "YAMLAccountManager.Create"; "YAMLAccountManager.Delete"; "YAMLAccountManager.Update"; "writeFileAtomic"]%string.
+(* the loader's only call: for each account file it reads, one rename of that file to the file of the login inside
+   it, when that does not exist - the step [recover1] of FS/Crash.v *)
+Definition loader_calls : list pcall :=
+  [mk_pcall "os.Rename" [PVar "filePath"; PVar "wantPath"] false "<loop> <else> os.IsNotExist(err)"]%string.
